@@ -861,14 +861,14 @@ def region_of_interest(
         start = (start,) * sdim
     elif not isinstance(start, Sequence) or not all(isinstance(n, int) for n in start):
         raise TypeError("region_of_interest() 'start' must be int or sequence of ints")
-    elif len(start) != 3:
+    elif len(start) != sdim:
         raise ValueError(f"region_of_interest() 'start' must be int or sequence of length {sdim}")
     # Parse ROI size
     if isinstance(size, int):
         size = (size,) * sdim
     elif not isinstance(size, Sequence) or not all(isinstance(n, int) for n in size):
         raise TypeError("region_of_interest() 'size' must be int or sequence of ints")
-    elif len(size) != 3:
+    elif len(size) != sdim:
         raise ValueError(f"region_of_interest() 'size' must be int or sequence of length {sdim}")
     # Padding mode and fill value
     if isinstance(padding, (PaddingMode, str)):
